@@ -1,5 +1,6 @@
 """C12 — arithmetic modulo q is exact and canonical. Engine K (Kani/CBMC on the compiled Felt operators),
 each counterexample replayed natively through R before it is reported."""
+import re
 from ..common import *
 from .. import kani, replay
 
@@ -74,6 +75,7 @@ def check(tier):
     rep.assumptions = ['operands are canonical residues (the invariant every constructor establishes, itself checked by c12_new_all_i16)']
     rep.extra['exhaustive'] = True
     names = sorted(HARNESSES)
+    no_verdict_mul = None
     fast = [n for n in names if not n.startswith('c12_inv')]
     slow = [n for n in names if n.startswith('c12_inv')]
     res, out, secs, rc = kani.run_group(fast + slow, timeout=1500, jobs=NCPU)
@@ -98,12 +100,129 @@ def check(tier):
                 rep.note_inconclusive('harness %s: unwinding assertion failed (bound too small)' % n)
             else:
                 replay_failure(rep, n, r)
+        elif n.split('::')[-1] == 'c12_mul':
+            no_verdict_mul = r.raw[-300:]            # decided below by the M part, if that can
         else:
             rep.oblige(1, ok=False)
             rep.note_inconclusive('harness %s: no verdict (timeout/crash): %s' % (n, r.raw[-300:]))
+    mul_m_part(rep, no_verdict_mul)
     batch_inversion(rep, tier)
     oracle_validation(rep)
     return rep.finish()
+
+
+def mul_m_part(rep, kani_no_verdict):
+    """multiplication decided a second way (engine M, product cut point, cvc5 integer encoding + z3): see c12_m. It is the deciding
+    check when CBMC gives no verdict on c12_mul (division-free reductions do not finish under bit-blasting) and a cross-check otherwise."""
+    from . import c12_m
+    from ..mirsym import load_program
+    rep.functions.append('engine M: <Felt as Mul>::mul, Felt::multiply, <Felt as MulAssign>::mul_assign (product cut point)')
+    rep.trusted.append('cvc5 1.0 (--solve-bv-as-int=sum) / z3 on the M queries; mirsym summaries')
+    undecided = []
+    try:
+        load_program(fresh=True)
+    except Exception as e:
+        undecided.append('MIR not available: %s' % str(e)[:120])
+    for which, key in (c12_m.TARGETS if not undecided else []):
+        try:
+            r = c12_m.mul_scen(which)
+        except Exception as e:
+            r = {'which': which, 'verdict': 'unknown', 'note': '%s: %s' % (type(e).__name__, str(e)[:160])}
+        rep.states += r.get('paths', 0); rep.transitions += r.get('steps', 0); rep.queries += r.get('queries', 0); rep.solver_s += r.get('solver_s', 0.0)
+        rep.extra.setdefault('mir_hashes', {}).update(r.get('mir_hash', {}))
+        rep.sample({'engine': 'M', 'target': key, 'verdict': r.get('verdict'), 'oracle': r.get('oracle'), 'decided_by': r.get('decided_by'), 'paths': r.get('paths'),
+                    'excluded_non_products': r.get('excluded_nonproducts'), 'note': r.get('note')})
+        v = r.get('verdict')
+        for pnc in r.get('panics', []):
+            mm = pnc.get('model') or {}
+            pval = mm.get('prod_1')
+            pair = next(((x, pval // x) for x in range(1, Q) if pval % x == 0 and pval // x < Q), None) if pval else ((0, 0) if pval == 0 else None)
+            if pval and mm.get('a') and mm.get('b') and mm['a'] * mm['b'] == pval:
+                pair = (mm['a'], mm['b'])
+            if pair is None:
+                undecided.append('%s: a panic obligation (%s) is violable only for products that no two residues form, or without a model' % (key, pnc['msg'])); continue
+            req = ['felt_' + which, pair[0], pair[1]]
+            dev, rel = replay.both(req); rep.replayed += 1
+            if 'PANIC' in str(dev) or 'PANIC' in str(rel):
+                rep.oblige(1, ok=False)
+                rep.violation('felt_' + which + ':panic', '%s panics: dev=%r release=%r (M: %s)' % (' '.join(map(str, req)), dev, rel, pnc['msg']), {'replay_request': req, 'dev': dev, 'release': rel})
+            else:
+                undecided.append('%s: solver-found panic (%s) did not reproduce natively on %s' % (key, pnc['msg'], req))
+        if v == 'unsat':
+            rep.oblige(max(r.get('checks', 1), 1))
+        elif v == 'sat':
+            a, b = r['cex']['a'], r['cex']['b']
+            req = ['felt_' + which, a, b]; want = str(a * b % Q)
+            dev, rel = replay.both(req); rep.replayed += 1
+            rep.oblige(1, ok=False)
+            if dev != want or rel != want:
+                rep.violation('felt_' + which, '%s: real code returns dev=%r release=%r, specification says %r (M/cvc5 counterexample)' % (' '.join(map(str, req)), dev, rel, want),
+                              {'replay_request': req, 'expected': want, 'dev': dev, 'release': rel})
+            else:
+                undecided.append('%s: solver counterexample a=%d b=%d did not reproduce natively' % (key, a, b))
+        elif v == 'absent':
+            pass
+        else:
+            undecided.append('%s: %s' % (key, r.get('note') or v))
+    if kani_no_verdict is not None:
+        if undecided:
+            rep.oblige(1, ok=False)
+            rep.note_inconclusive('harness c12_mul: no verdict from CBMC (timeout/crash) and the M part does not decide it either: %s' % '; '.join(undecided)[:400])
+        else:
+            rep.parts['c12_mul'] = 'no verdict from CBMC within the cap; decided by the M part (product cut point, cvc5 integer encoding)'
+    elif undecided:
+        # CBMC decided multiplication; the M cross-check could not run or found something that does not reproduce: recorded, not a verdict
+        rep.parts['c12_mul_m_part'] = 'not conclusive (CBMC verdict stands): ' + '; '.join(undecided)[:400]
+
+
+def batch_override(rep):
+    """The S proof above is about the generic default method. If Felt's `impl Inverse` supplies its own batch_inverse_or_zero, that
+    proof says nothing about what runs: the override is real field arithmetic (symbolic-by-symbolic products modulo q, beyond the
+    solvers here), so it is exercised natively on structured batches (lengths around every power of two up to 1024, zeros at the
+    ends, in the middle, at block boundaries); a deviation is a violation, none leaves the property undecided for this tree."""
+    try:
+        from ..mirsym import load_program
+        from .c07_scen import prog
+        load_program(fresh=False)
+        P = prog()
+    except Exception as e:
+        rep.parts['batch_override_probe'] = 'MIR not available: %s' % str(e)[:100]
+        return
+    keys = [k for k in P.by_key if re.search(r'<Felt as (\w+::)*Inverse>::batch_inverse_or_zero$', k)]
+    rep.parts['felt_batch_override'] = bool(keys)
+    if not keys:
+        return
+    import random
+    rnd = random.Random(12289)
+    lens = sorted(set([0, 1, 2, 3, 5, 8, 16, 31, 32, 33, 63, 64, 65, 66, 100, 127, 128, 129, 191, 192, 193, 255, 256, 257, 511, 512, 513, 1023, 1024]))
+    reqs = []; want = []
+    for L in lens:
+        base = [rnd.randrange(1, Q) for _ in range(L)]
+        pats = [set()]
+        if L:
+            pats += [{0}, {L - 1}, {L // 2}, set(range(0, L, 2)), set(range(L))]
+            pats += [{i} for i in (63, 64, 65, 127, 128) if i < L]
+            pats += [{rnd.randrange(L)} for _ in range(2)]
+        for zs in pats:
+            v = [0 if i in zs else x for i, x in enumerate(base)]
+            reqs.append(['felt_batch_inv', ','.join(map(str, v)) if v else '-'])
+            want.append(','.join(str(pow(x, Q - 2, Q)) for x in v))
+    found = False
+    for prof in ('dev', 'release'):
+        got = replay.call(reqs, prof)
+        for rq, g, w in zip(reqs, got, want):
+            rep.replayed += 1
+            if g != w and not found:
+                found = True
+                vals = rq[1].split(',') if rq[1] != '-' else []
+                bad = [i for i, (a, b) in enumerate(zip(g.split(','), w.split(','))) if a != b] if g and not g.startswith('PANIC') else []
+                rep.oblige(1, ok=False)
+                rep.violation('batch_inverse_or_zero:override', 'Felt overrides batch_inverse_or_zero (%s); on a batch of %d elements with zeros at %s it returns wrong entries at %s%s [%s]'
+                              % (keys[0], len(vals), [i for i, x in enumerate(vals) if x == '0'][:8], bad[:8], (' (%s)' % g[:80]) if not bad else '', prof),
+                              {'replay_request': rq, 'expected': w, 'got': g, 'profile': prof})
+    if not found:
+        rep.oblige(1, ok=False)
+        rep.note_inconclusive('Felt supplies its own batch_inverse_or_zero (%s): the solver proof covers the generic method only; %d native structured batches (lengths up to 1024) show no deviation, which is not a decision' % (keys[0], len(reqs)))
 
 
 def oracle_validation(rep):
@@ -163,6 +282,7 @@ def batch_inversion(rep, tier):
                 rep.note_inconclusive('engine S (log domain) counterexample for batch inversion (len %d, zero mask %d) did not reproduce natively' % (n, mask))
         else:
             rep.note_inconclusive('engine S batch inversion len %d mask %d: %s' % (n, mask, v))
+    batch_override(rep)
     rep.functions.append('Inverse::batch_inverse_or_zero (generic code, engine S log-domain instantiation)')
     rep.bounds.append('batch inversion: every batch length 0..%d, every zero pattern, all non-zero operands (exponents symbolic in Z_12288)' % maxlen)
     rep.trusted.append('F_q^* is cyclic of order q-1 (log-domain encoding of multiplication / inversion), and Felt multiplication / inversion are exact (harnesses above)')
